@@ -350,7 +350,7 @@ def variants(rng, c):
 
 def generate(tier, rng):
     quick = tier != 'thorough'
-    n = 85 if quick else 600
+    n = 85 if quick else 450
     for i in range(n):
         c = with_seqs(rng, base_case(rng, quick), planted=(i % 2 == 0))
         for v in variants(rng, c):
